@@ -299,6 +299,9 @@ RULE = ("in-process stack: a workflow that stores state and waits for 1-2 extern
 from vmc.tables import _ROUND6 as _R6  # noqa: E402
 
 RULE += _R6["C36"]
+from vmc.tables import _ROUND7 as _R7  # noqa: E402
+
+RULE += _R7["C36"]
 
 
 
